@@ -110,6 +110,9 @@ func (ip *IPv4) SerializeTo(b gopacket.SerializeBuffer, opts gopacket.SerializeO
 	if err != nil {
 		return err
 	}
+	// zero the options area: the padding behind the last option and any part
+	// of an option that its data does not fill
+	clear(bytes[20:])
 	if opts.FixLengths {
 		ip.IHL = uint8(5 + (optionLength / 4))
 		ip.Length = uint16(len(b.Bytes()))
